@@ -84,6 +84,8 @@ def gen_dataset_cfg(rng, flavor='general', big=False):
     elif r < 0.05:
         cfg['nt'] = nt = rng.choice([130, 257, 300])
         cfg['ns'] = ns = max(ns, 60)
+        if rng.random() < 0.5:
+            cfg['dtypes']['ids'] = 'uint16'    # products of ids overflow 16 bits beyond 256 ids
     elif r < 0.08:
         cfg['time_offset'] = rng.choice([2 ** 31 + 5, 2 ** 32 + 7, 2 ** 33])
     if rng.random() < 0.1:
@@ -251,8 +253,13 @@ def build_gt(cfg):
     g.stemplates = np.array([used[i] for i in rs.randint(0, len(used), size=ns)], dtype=np.int64)
     # make sure every "used" template has a spike when possible
     perm = rs.permutation(ns)
-    for i, t in enumerate(used[:ns]):
-        g.stemplates[perm[i]] = t
+    if len(used) > 2 * ns:
+        # many more templates than spikes: keep the random assignment (any id, also the highest
+        # ones, may own spikes) instead of handing the spikes to the first ns templates
+        pass
+    else:
+        for i, t in enumerate(used[:ns]):
+            g.stemplates[perm[i]] = t
     g.sclusters = apply_curation(g.stemplates, g.stemplates, cfg.get('curation') or [])
     g.amps = np.round(rs.uniform(0.5, 30.0, size=ns), 3).astype(
         cfg['dtypes'].get('amps', 'float64')).astype(np.float64)
@@ -319,6 +326,12 @@ def build_gt(cfg):
             elif nloc >= 3 and rs.rand() < 0.4:
                 j = rs.randint(1, nloc)
                 data[t, :, j] = 0  # signal-free column (kept channel id)
+            elif nloc >= 3 and rs.rand() < 0.3:
+                # a purely negative deflection on a zero baseline: the column's maximum is exactly 0
+                j = rs.randint(1, nloc)
+                if cols[t, j] != -1:
+                    data[t, :, j] = -np.abs(data[t, :, j])
+                    data[t, ::2, j] = 0
         g.tmpl_data = data
         g.tmpl_cols = cols
     else:
@@ -366,6 +379,9 @@ def build_gt(cfg):
             g.tf_rows = None
         nrows = ns if g.tf_rows is None else len(g.tf_rows)
         g.tfeatures = rs.normal(size=(nrows, nl)).astype(np.float32)
+        for j, frac in enumerate(cfg.get('tfeat_nonfinite') or []):
+            # non-finite stored values (the store is memory-mapped: they are returned as they are)
+            g.tfeatures[int(frac * (nrows - 1)), j % nl] = [np.nan, np.inf, -np.inf][j % 3]
     else:
         g.tf_ind = g.tfeatures = g.tf_rows = None
     # spike attributes
@@ -609,6 +625,14 @@ def write_dataset(cfg, g, d):
                 f.write(np.ascontiguousarray(g.raw[i:i + m]).tobytes())
             i += m
             dat_paths.append(name)
+            if r.get('symlinked'):
+                # the raw file lives in a content-addressed store WITHOUT a file extension; the
+                # dataset folder holds a symbolic link with the usual name
+                store = d.parent / 'blobs'
+                store.mkdir(exist_ok=True)
+                target = store / ('%08x%d' % (cfg['seed'] % (2 ** 32), k))
+                os.replace(str(d / name), str(target))
+                (d / name).symlink_to(target)
     lines = []
     if not dat_paths and cfg.get('raw_missing'):
         # params.py still names the raw file, but it is not there (moved or deleted)
